@@ -304,6 +304,39 @@ pub fn child_decode(bytes: &[u8]) -> String {
     decode_garbage(bytes)
 }
 
+/// generated version names: a prefix of a real name followed by characters of 1..4 bytes, so that every
+/// byte offset at which an implementation might cut the string falls inside a character in some case
+fn version_name(tape: &[u16], rc: &mut RCase) -> Result<(), Failure> {
+    let mut t = Tape::new(tape);
+    let base = ["v1beta0", "v1alpha8", "v1alpha9", "v1alpha", "v", ""][t.pick(6)];
+    let cut = t.pick(base.len() + 1);
+    let mut name: String = base[..cut].to_string();
+    let n = t.pick(10);
+    const PIECES: [&str; 12] = ["0", "9", "a", "v1", "beta", "é", "б", "０", "あ", "😀", "-", "\u{0}"];
+    for _ in 0..n {
+        name.push_str(PIECES[t.pick(PIECES.len())]);
+    }
+    let r = guard(|| TirVersion::try_from(name.as_str()));
+    match r {
+        Err(p) => Err(Failure::new(format!("panic:{}", p.sig()), format!("TirVersion::try_from({:?})", name), json!({"version": name}))),
+        Ok(Ok(v)) => {
+            let ok = (name == "v1beta0" && v == TirVersion::V1Beta0) || (name == "v1alpha8" && v == TirVersion::V1Alpha8);
+            if !ok {
+                return Err(Failure::new("version_accepted", format!("{:?} parsed as {:?}", name, v), json!({"version": name})));
+            }
+            rc.record(hash64(&name), false, || json!({"version_string": name}));
+            Ok(())
+        }
+        Ok(Err(_)) => {
+            if name == "v1beta0" || name == "v1alpha8" {
+                return Err(Failure::new("version_rejected", format!("{:?} rejected", name), json!({"version": name})));
+            }
+            rc.record(hash64(&name), !name.is_ascii(), || json!({"version_string": name}));
+            Ok(())
+        }
+    }
+}
+
 fn version_strings(rc: &mut RCase) -> Result<(), Failure> {
     let cands = ["v1beta0", "v1alpha8", "v1alpha9", "", "v1beta1", "V1BETA0", " v1beta0", "v1beta0\n", "ü", "v1beta0\0"];
     for c in cands {
@@ -349,7 +382,7 @@ pub fn run(tier: Tier, seed: u64) -> Report {
               UTxO sets, directive maps, i128 extremes), IR lowered from generated programs (compared also after \
               identical application and compilation) and from the repository's examples; garbage: random bytes, \
               bit-flipped / truncated / spliced / huge-length mutations of valid encodings, nesting bombs planted \
-              inside a valid encoding (child process, 2 MiB and 8 MiB stacks), version strings. distinct = hash of the \
+              inside a valid encoding (child process, 2 MiB and 8 MiB stacks), version strings (fixed candidates and generated names with 1..4-byte characters at every offset). distinct = hash of the \
               bytes; non-trivial = tree with >=8 nodes and >=4 variant kinds, or a mutation of a valid encoding / a bomb"
         .into();
     r.assumptions = vec![
@@ -392,6 +425,7 @@ pub fn run(tier: Tier, seed: u64) -> Report {
     }
     r.explore("garbage_bytes", tier.pick(100_000, 3_000_000), 700, &|t, rc| check_bytes(t, rc));
     r.explore_list("version_strings", &[vec![]], &|_, rc| version_strings(rc));
+    r.explore("version_names", tier.pick(5_000, 200_000), 40, &|t, rc| version_name(t, rc));
     // bombs in child processes
     if !r.failed() {
         let depths: Vec<usize> = tier.pick(vec![64, 200, 1000, 100_000], vec![16, 64, 128, 200, 255, 256, 257, 1000, 10_000, 100_000, 1_000_000]);
@@ -444,6 +478,7 @@ pub fn replay(phase: &str, tape: &[u16], seed: u64) -> Report {
     match phase {
         "lowered_programs" => r.explore_list(phase, &[tape.to_vec()], &|t, rc| check_lowered(t, rc)),
         "garbage_bytes" => r.explore_list(phase, &[tape.to_vec()], &|t, rc| check_bytes(t, rc)),
+        "version_names" => r.explore_list(phase, &[tape.to_vec()], &|t, rc| version_name(t, rc)),
         _ => r.explore_list(phase, &[tape.to_vec()], &|t, rc| check_tree(t, rc)),
     }
     r
